@@ -64,6 +64,7 @@ def answersFor (st : St) (s : State) (x : Inst) (u : Path) : List Ans :=
     match modeOf st s x.gen r with
     | "truthful" => truthful s x.gen u r
     | "hang" => .hang
+    | "slow" => .needs   -- answers "yes", but only after longer than any deadline the asker might impose
     | _ => .err
 
 structure GcAcc where
@@ -254,6 +255,10 @@ def step (st : St) (ws : List String) : St × String :=
     match Files.step st.s (.release (natOr i)) with
     | none => (st, "not-alive")
     | some s' => ({ st with s := s' }, "ok")
+  | ["redeployfail", i] =>
+    match Files.step st.s (.redeployFailed (natOr i)) with
+    | none => (st, "not-alive")
+    | some s' => ({ st with s := s' }, "failed")
   | ["mode", i, m] =>
     let i := natOr i
     if i < st.modes.length then ({ st with modes := st.modes.set i m }, "ok") else (st, "bad-op")
